@@ -240,7 +240,215 @@ def run(ctx):
             recorder_forward(chk, "C01.g", f)
             n += 1
     chk.analysed["Recorder impls in metrics"] = len(impls)
+    if ctx.config == "default":
+        run_macros(ctx)
 
 
 def run_config(ctx):
     run(ctx)
+
+
+# ---------------------------------------------------------------------------------------------
+# C01.f  macro fidelity: expansion witness with marker provenance
+# ---------------------------------------------------------------------------------------------
+XKINDS = {"c": "counter", "g": "gauge", "h": "histogram"}
+EXPECTED_ARMS = {"counter": 4, "gauge": 4, "histogram": 4, "key_var": 6, "metadata_var": 1, "describe": 2, "describe_counter": 2, "describe_gauge": 2, "describe_histogram": 2}
+
+
+def _strs(s):
+    """String constants inside a symbolic expression, in pre-order."""
+    return [x[2] for x in sym_walk(s) if isinstance(x, tuple) and len(x) >= 3 and x[0] == "const" and x[1] == "str"]
+
+
+def _static_init(x, path):
+    f = x.fn(path)
+    if f is None or f.dk != "Static":
+        return None
+    return strip_sym(Sym(f).local(0))
+
+
+def _static_ref(s):
+    s = strip_sym(s)
+    if isinstance(s, tuple) and s[:2] == ("const", "static"):
+        return s[2]
+    return None
+
+
+def run_macros(ctx):
+    chk = ctx.check
+    chk.rule("C01.f", "MACRO expansion witness: for every arm (4 prefix forms x 6 key_var arms x 3 kinds, 3 describe forms x 3 kinds) the expansion contains exactly one with_recorder call whose closure calls exactly one Recorder method of the macro's kind; name/label markers reach Key construction in order; Metadata::new(target marker | module_path, level marker | Level::INFO, Some(module_path)); describe passes Into::into(name), Some(unit)/None, Into::into(description); the macro arm counts in /repo equal the counts the witness covers", floor=81 + 9)
+    m = ctx.crate("metrics")
+    x = ctx.xcrate("macros_x")
+    if x is None:
+        chk.unrecognised("C01.f", "<anchor> expansion witness facts", "x_macros_x.json missing (witness did not compile?)")
+        return
+    w = ctx.witness.get("macros_x", {})
+    if w.get("exit") != 0:
+        chk.unrecognised("C01.f", "<anchor> expansion witness", f"witness does not compile against the current macros: {w.get('messages')}")
+        return
+    chk.analysed["macros_x"] = x.stats()
+    # arm counts
+    for name, n in EXPECTED_ARMS.items():
+        mac = m.macros.get(name)
+        got = mac["arms"] if mac else None
+        chk.ob("C01.f", f"macro {name}! [arm count]", got == n, f"{got} arms, all instantiated by the witness" if got == n else f"macro has {got} arms but the witness covers {n}: an arm is not covered (or was removed)", f"{mac['file']}:{mac['ln']}" if mac else "", nontrivial=False)
+
+    for f in x.fns:
+        if f.dk != "Fn":
+            continue
+        name = f.name
+        parts = name.split("_")
+        if name[0] == "d" and len(parts) == 2:
+            _check_describe(chk, x, f, XKINDS[name[1]], parts[1])
+        elif len(parts) == 3 and parts[0] in XKINDS:
+            _check_register(chk, x, f, XKINDS[parts[0]], parts[1], parts[2])
+
+
+def _one_dispatch(chk, x, f, method):
+    """exactly one with_recorder call; its closure calls exactly one Recorder method == `method`."""
+    wrs = [c for c in f.region_calls() if c.is_("metrics::recorder::with_recorder")]
+    where = f"macros_x::{f.name}"
+    if len(wrs) != 1 or wrs[0].fn is not f:
+        chk.ob("C01.f", where, False, f"expected exactly one with_recorder call in the expansion, found {len(wrs)}", f.loc())
+        return None
+    from props.common import in_cycle
+
+    if in_cycle(wrs[0].body, wrs[0].bb):
+        chk.ob("C01.f", where, False, "with_recorder is called inside a loop", f.loc())
+        return None
+    clos = strip_sym(Sym(f).operand(wrs[0].args[0]))
+    if not (clos[0] == "agg" and clos[1] == "closure"):
+        chk.ob("C01.f", where, False, "with_recorder is not given a closure literal", f.loc())
+        return None
+    cf = x.fn(clos[5])
+    rcs = [c for c in cf.region_calls() if (c.t.get("trait") or "").endswith("recorder::Recorder")]
+    if len(rcs) != 1:
+        chk.ob("C01.f", where, False, f"closure calls {len(rcs)} Recorder methods, expected exactly one", f.loc())
+        return None
+    got = rcs[0].callee.split("::")[-1]
+    if got != method:
+        chk.ob("C01.f", where, False, f"dispatches to Recorder::{got}, expected Recorder::{method}", f.loc())
+        return None
+    a = [Sym(cf).operand(o) for o in rcs[0].args]
+    if not (strip_sym(a[0])[0] == "arg" and strip_sym(a[0])[1] == 1):
+        chk.ob("C01.f", where, False, "the Recorder method is not invoked on the recorder passed by with_recorder", f.loc())
+        return None
+    return a
+
+
+def _check_register(chk, x, f, kind, prefix, arm):
+    where = f"macros_x::{f.name}"
+    tag = f.name
+    a = _one_dispatch(chk, x, f, f"register_{kind}")
+    if a is None:
+        return
+    key, meta = strip_sym(a[1]), strip_sym(a[2])
+    N, K1, V1, K2, V2, T = (f"{p}~{tag}" for p in ("N", "K1", "V1", "K2", "V2", "T"))
+    problems = []
+    # ---- key
+    kstatic = _static_ref(key)
+    if arm in ("a1", "a3"):
+        init = _static_init(x, kstatic) if kstatic else None
+        if init is None:
+            problems.append("key is not a static METRIC_KEY")
+        elif arm == "a1":
+            if not (sym_is_call(init, "Key::from_static_name") and _strs(init) == [N]):
+                problems.append(f"static key built as {sym_str(init)}")
+        else:
+            if not (sym_is_call(init, "Key::from_static_parts") and _strs(init[2][0]) == [N]):
+                problems.append(f"static key built as {sym_str(init)}")
+            else:
+                lst = _static_ref(init[2][1])
+                linit = _static_init(x, lst) if lst else None
+                problems += _labels_static(linit, [(K1, V1), (K2, V2)])
+    else:
+        if arm == "a2":
+            if not (sym_is_call(key, "Key::from_name") and _strs(key) == [N]):
+                problems.append(f"key built as {sym_str(key)}")
+        elif arm == "a4":
+            if not (sym_is_call(key, "Key::from_static_labels") and _strs(key[2][0]) == [N]):
+                problems.append(f"key built as {sym_str(key)}")
+            else:
+                lst = _static_ref(key[2][1])
+                linit = _static_init(x, lst) if lst else None
+                problems += _labels_static(linit, [(K1, V1), (K2, V2)])
+        elif arm == "a5":
+            if not (sym_is_call(key, "Key::from_parts") and _strs(key[2][0]) == [N]):
+                problems.append(f"key built as {sym_str(key)}")
+            else:
+                # labels: the only Label array aggregate in the function, built from Label::new(K,V) in order
+                arrs = [s for _, _, s in f.body.stmts() if s["k"] == "assign" and s["rv"]["k"] == "agg" and s["rv"].get("agg") == "array" and s["rv"].get("ty", "").endswith("label::Label")]
+                sy = Sym(f)
+                if len(arrs) != 1:
+                    problems.append(f"expected one label array, found {len(arrs)}")
+                else:
+                    got = []
+                    for o in arrs[0]["rv"]["ops"]:
+                        s = strip_sym(sy.operand(o))
+                        if not sym_is_call(s, "Label::new"):
+                            problems.append(f"label built as {sym_str(s)}")
+                        else:
+                            got.append((_strs(s[2][0]), _strs(s[2][1])))
+                    if got != [([K1], [V1]), ([K2], [V2])]:
+                        problems.append(f"labels are {got}")
+                vec = strip_sym(key[2][1])
+                if not (vec[0] == "call" and isinstance(vec[1], str) and "vec" in vec[1]):
+                    problems.append(f"labels argument is {sym_str(vec)}, not the vec! of labels")
+        elif arm == "a6":
+            if not (sym_is_call(key, "Key::from_parts") and _strs(key[2][0]) == [N] and _strs(key[2][1]) == [K1, V1, K2, V2]):
+                problems.append(f"key built as {sym_str(key)}")
+    # ---- metadata
+    mstatic = _static_ref(meta)
+    minit = _static_init(x, mstatic) if mstatic else None
+    if minit is None or not sym_is_call(minit, "Metadata::new", "Metadata<'a>::new"):
+        problems.append("metadata is not a static Metadata::new(..)")
+    else:
+        tgt, lvl, mod = minit[2]
+        want_t = [T] if prefix in ("tl", "t") else ["macros_x"]
+        if _strs(tgt) != want_t:
+            problems.append(f"target is {_strs(tgt)}, expected {want_t}")
+        lv = strip_sym(lvl)
+        want_l = "metrics::metadata::Level::DEBUG" if prefix in ("tl", "l") else "metrics::metadata::Level::INFO"
+        if not (lv[0] == "const" and len(lv) > 3 and lv[3] == want_l):
+            problems.append(f"level is {sym_str(lv)} {lv[3:] if len(lv) > 3 else ''}, expected {want_l}")
+        md = strip_sym(mod)
+        if not (md[0] == "agg" and md[2] == "Some" and _strs(md) == ["macros_x"]):
+            problems.append(f"module path is {sym_str(md)}")
+    chk.ob("C01.f", where, not problems, f"{kind}! [{prefix}/{arm}]: name, labels (in order), target, level and module path reach register_{kind} intact" if not problems else "; ".join(problems[:3]), f.loc())
+
+
+def _labels_static(linit, want):
+    if linit is None or linit[0] != "agg" or linit[1] != "array":
+        return [f"labels static is {sym_str(linit) if linit else None}"]
+    got = []
+    for e in linit[3]:
+        e = strip_sym(e)
+        if not sym_is_call(e, "Label::from_static_parts"):
+            return [f"label built as {sym_str(e)}"]
+        got.append((_strs(e[2][0]), _strs(e[2][1])))
+    if got != [([k], [v]) for k, v in want]:
+        return [f"labels are {got}, expected {want} in order"]
+    return []
+
+
+def _check_describe(chk, x, f, kind, form):
+    where = f"macros_x::{f.name}"
+    tag = f.name
+    a = _one_dispatch(chk, x, f, f"describe_{kind}")
+    if a is None:
+        return
+    problems = []
+    name, unit, desc = strip_sym(a[1]), strip_sym(a[2]), strip_sym(a[3])
+    if not (sym_is_call(name, "Into::into") and _strs(name) == [f"N~{tag}"]):
+        problems.append(f"name argument is {sym_str(name)}")
+    if not (sym_is_call(desc, "Into::into") and _strs(desc) == [f"D~{tag}"]):
+        problems.append(f"description argument is {sym_str(desc)}")
+    if form in ("u", "ue"):
+        wantu = "Bytes" if form == "u" else "Seconds"
+        ok = unit[0] == "agg" and unit[2] == "Some" and repr(unit).count(f"'{wantu}'") >= 1
+        if not ok:
+            problems.append(f"unit argument is {sym_str(unit)}, expected Some(Unit::{wantu})")
+    else:
+        if not (unit[0] == "agg" and unit[2] == "None"):
+            problems.append(f"unit argument is {sym_str(unit)}, expected None")
+    chk.ob("C01.f", where, not problems, f"describe_{kind}! [{form}]: Into::into(name), {'Some(unit)' if form != 'n' else 'None'}, Into::into(description)" if not problems else "; ".join(problems[:3]), f.loc())
